@@ -152,3 +152,92 @@ Proof. intros P _. cbn [smul pzero ed25519_ops]. exact norm_pt_zero. Qed.
 
 Lemma inst_smul_1 : forall P : @point ed25519_ops, valid P -> smul 1 P = P.
 Proof. intros P HP. cbn [smul ed25519_ops]. exact (norm_valid_id P HP). Qed.
+
+(* smul_opp needs no algebra beyond -(-x) = x on reduced coordinates: the instance DEFINES k·P for k < 0 as the
+   negation of the normalised (-k)·P.  It holds for every representative P, valid or not. *)
+Lemma pt_neg_norm_invol p : Ed25519.pt_neg (Ed25519.pt_neg (norm p)) = norm p.
+Proof.
+  destruct (norm_shape p) as (a & b & -> & Ha & Hb). unfold Ed25519.pt_neg.
+  cbn [Ed25519.pX Ed25519.pY Ed25519.pZ Ed25519.pT].
+  rewrite (fneg_fneg a Ha), (fneg_fneg (Ed25519.fmul a b)) by apply fmul_range. reflexivity.
+Qed.
+
+Lemma pt_neg_zero : Ed25519.pt_neg Ed25519.pt_zero = Ed25519.pt_zero.
+Proof. vm_compute. reflexivity. Qed.
+
+Lemma inst_smul_opp : forall a (P : @point ed25519_ops), valid P -> smul (- a) P = pneg (smul a P).
+Proof.
+  intros a P _. cbn [smul pneg ed25519_ops]. unfold inst_smul.
+  destruct (Z.ltb_spec (- a) 0) as [H1|H1]; destruct (Z.ltb_spec a 0) as [H2|H2]; try lia.
+  - rewrite Z.opp_involutive. reflexivity.
+  - rewrite pt_neg_norm_invol. reflexivity.
+  - assert (a = 0) as -> by lia. change (- 0) with 0. change (Ed25519.smul 0 P) with Ed25519.pt_zero.
+    rewrite norm_pt_zero. symmetry. exact pt_neg_zero.
+Qed.
+
+(* ---- the order of the base point: l·G = O (kernel computation, Proofs/EdKAT.v) ---------------------------------- *)
+Lemma inst_smul_ell_G : @smul ed25519_ops ell G = pzero.
+Proof. exact kat_ell_G. Qed.
+
+(* ---- the eight small-order points: tors_valid, tors_8 ------------------------------------------------------------ *)
+Lemma mod8_cases i : i mod 8 = 0 \/ i mod 8 = 1 \/ i mod 8 = 2 \/ i mod 8 = 3 \/
+                     i mod 8 = 4 \/ i mod 8 = 5 \/ i mod 8 = 6 \/ i mod 8 = 7.
+Proof. pose proof (Z.mod_pos_bound i 8 ltac:(lia)). lia. Qed.
+
+(* Each closed computation is run once by vm_compute; `tors_ok k` / `tors8_ok k` are NOTATIONS, so that every later step
+   is syntactic (exact with the very same term): neither the unifier nor the kernel ever has to convert curve arithmetic
+   with its lazy machine (closed: slow; with the stuck `i mod 8` inside: exponential). *)
+Local Notation tors_ok k := (inst_valid_b (norm (Ed25519.smul k Ed25519.torsion_gen))).
+
+Lemma tors_ok_all : tors_ok 0 && (tors_ok 1 && (tors_ok 2 && (tors_ok 3 && (tors_ok 4 && (tors_ok 5 && (tors_ok 6 && tors_ok 7)))))) = true.
+Proof. vm_cast_no_check (eq_refl true). Qed.   (* one VM run, at Qed *)
+
+Lemma tors_ok_mod8 i : tors_ok (i mod 8) = true.
+Proof.
+  pose proof tors_ok_all as H.
+  apply andb_true_iff in H. destruct H as [H0 H]. apply andb_true_iff in H. destruct H as [H1 H].
+  apply andb_true_iff in H. destruct H as [H2 H]. apply andb_true_iff in H. destruct H as [H3 H].
+  apply andb_true_iff in H. destruct H as [H4 H]. apply andb_true_iff in H. destruct H as [H5 H].
+  apply andb_true_iff in H. destruct H as [H6 H7].
+  destruct (mod8_cases i) as [-> | [-> | [-> | [-> | [-> | [-> | [-> | ->]]]]]]];
+    [exact H0|exact H1|exact H2|exact H3|exact H4|exact H5|exact H6|exact H7].
+Qed.
+
+Lemma inst_tors_valid : forall i, @valid ed25519_ops (tors i).
+Proof.
+  intros i. cbn [valid tors ed25519_ops]. unfold Ed25519.torsion. apply inst_valid_b_ok. exact (tors_ok_mod8 i).
+Qed.
+
+Definition pt_eqb_strict (p q : Ed25519.pt) : bool :=
+  (Ed25519.pX p =? Ed25519.pX q) && (Ed25519.pY p =? Ed25519.pY q) &&
+  (Ed25519.pZ p =? Ed25519.pZ q) && (Ed25519.pT p =? Ed25519.pT q).
+
+Lemma pt_eqb_strict_ok p q : pt_eqb_strict p q = true -> p = q.
+Proof.
+  destruct p as [x1 y1 z1 t1], q as [x2 y2 z2 t2]. unfold pt_eqb_strict.
+  cbn [Ed25519.pX Ed25519.pY Ed25519.pZ Ed25519.pT]. intros H.
+  apply andb_true_iff in H. destruct H as [H H4]. apply andb_true_iff in H. destruct H as [H H3].
+  apply andb_true_iff in H. destruct H as [H1 H2]. apply Z.eqb_eq in H1, H2, H3, H4. congruence.
+Qed.
+
+Local Notation tors8_ok k :=
+  (pt_eqb_strict (inst_smul 8 (norm (Ed25519.smul k Ed25519.torsion_gen))) Ed25519.pt_zero).
+
+Lemma tors8_ok_all : tors8_ok 0 && (tors8_ok 1 && (tors8_ok 2 && (tors8_ok 3 && (tors8_ok 4 && (tors8_ok 5 && (tors8_ok 6 && tors8_ok 7)))))) = true.
+Proof. vm_cast_no_check (eq_refl true). Qed.   (* one VM run, at Qed *)
+
+Lemma tors8_ok_mod8 i : tors8_ok (i mod 8) = true.
+Proof.
+  pose proof tors8_ok_all as H.
+  apply andb_true_iff in H. destruct H as [H0 H]. apply andb_true_iff in H. destruct H as [H1 H].
+  apply andb_true_iff in H. destruct H as [H2 H]. apply andb_true_iff in H. destruct H as [H3 H].
+  apply andb_true_iff in H. destruct H as [H4 H]. apply andb_true_iff in H. destruct H as [H5 H].
+  apply andb_true_iff in H. destruct H as [H6 H7].
+  destruct (mod8_cases i) as [-> | [-> | [-> | [-> | [-> | [-> | [-> | ->]]]]]]];
+    [exact H0|exact H1|exact H2|exact H3|exact H4|exact H5|exact H6|exact H7].
+Qed.
+
+Lemma inst_tors_8 : forall i, @smul ed25519_ops 8 (tors i) = pzero.
+Proof.
+  intros i. cbn [smul pzero tors ed25519_ops]. unfold Ed25519.torsion. apply pt_eqb_strict_ok. exact (tors8_ok_mod8 i).
+Qed.
